@@ -468,7 +468,7 @@ class IntegerSequence(SequenceBase):
         else:
             prev_point = point - self.i_step
         ret = self._get_point_in_bounds(prev_point)
-        if self.exclusions and ret in self.exclusions:
+        if self.exclusions and ret is not None and ret in self.exclusions:
             return self.get_prev_point(ret)
         return ret
 
@@ -477,15 +477,19 @@ class IntegerSequence(SequenceBase):
         if self.is_on_sequence(point):
             return self.get_prev_point(point)
         sequence_point = self._get_point_in_bounds(self.p_start)
+        if (
+            self.exclusions
+            and sequence_point is not None
+            and sequence_point in self.exclusions
+        ):
+            sequence_point = self.get_next_point(sequence_point)
         prev_point = None
         while sequence_point is not None:
-            if sequence_point > point:
-                # Technically, >=, but we already test for this above.
+            if sequence_point >= point:
+                # (point itself may be an excluded on-sequence point)
                 break
             prev_point = sequence_point
             sequence_point = self.get_next_point(sequence_point)
-        if self.exclusions and prev_point in self.exclusions:
-            return self.get_nearest_prev_point(prev_point)
         return prev_point
 
     def get_next_point(self, point):
@@ -541,7 +545,11 @@ class IntegerSequence(SequenceBase):
 
     def get_stop_point(self):
         """Return the last point in this sequence, or None if unbounded."""
-        if self.exclusions and self.p_stop in self.exclusions:
+        if (
+            self.exclusions
+            and self.p_stop is not None
+            and self.p_stop in self.exclusions
+        ):
             return self.get_prev_point(self.p_stop)
         return self.p_stop
 
